@@ -1,6 +1,7 @@
 package kv
 
 import (
+	"bytes"
 	"bufio"
 	"errors"
 	"fmt"
@@ -227,6 +228,37 @@ func judgeGet(r *run.Runner, backend, dir, key string, allowed map[string]bool, 
 	return "full:" + base
 }
 
+// judgeRecovery: after a cut or killed write, the reopened backend must still
+// work as a map for that key - the listing agrees with what Get said, and a
+// later (shorter) Set is read back exactly, not spliced with leftovers.
+func judgeRecovery(r *run.Runner, backend, dir, key, res, sig, what string) {
+	conn, err := Backend(backend, dir)
+	if err != nil {
+		return
+	}
+	if kl, ok := conn.(keyLister); ok && (strings.HasPrefix(res, "full:") || res == "absent") {
+		ks, err := kl.Keys("")
+		switch {
+		case err != nil:
+			r.Violation("listing-fails-after-crash", sig, fmt.Sprintf("%s: Keys(\"\") fails: %.300s", what, err.Error()), nil)
+		case res == "absent" && len(ks) != 0, strings.HasPrefix(res, "full:") && (len(ks) != 1 || ks[0] != key):
+			r.Violation("listing-wrong-after-crash", sig, fmt.Sprintf("%s: Get says %s but Keys(\"\") lists %d keys", what, res, len(ks)), nil)
+		}
+		r.Count("listings_after_crash", 1)
+	}
+	rec := MakeValue("rec", 37, false)
+	if err := conn.Set(key, rec); err != nil {
+		r.Violation("set-fails-after-crash", sig, fmt.Sprintf("%s: a later Set of the key fails: %.300s", what, err.Error()), nil)
+		return
+	}
+	got, err := conn.Get(key)
+	if err != nil || !bytes.Equal(got, rec) {
+		id, intact := ParseValue(got)
+		r.Violation("recovery-write-damaged", sig, fmt.Sprintf("%s: a later Set of a %d-byte value reads back as %d bytes (id %q, intact %v, err %v)", what, len(rec), len(got), id, intact, err), nil)
+	}
+	r.Count("recovery_writes_checked", 1)
+}
+
 // TestC15Cut: a child Sets a value while RLIMIT_FSIZE cuts the write after
 // exactly k bytes, for every k.
 func TestC15Cut(t *testing.T) {
@@ -273,6 +305,9 @@ func TestC15Cut(t *testing.T) {
 		r.Begin(i, c)
 		dir := ScratchDir()
 		key := "http://a.example/cut#0"
+		if i%3 == 1 {
+			key += strings.Repeat("k", 250) // fragment directories
+		}
 		allowed := map[string]bool{"new": true}
 		if c.Old {
 			conn, err := Backend(c.Backend, dir)
@@ -297,6 +332,7 @@ func TestC15Cut(t *testing.T) {
 		files, temps, sizes := diskState(dir)
 		res := judgeGet(r, c.Backend, dir, key, allowed, fmt.Sprintf("backend=%s,old=%v,set-ok=%v", c.Backend, c.Old, setOK),
 			fmt.Sprintf("after a write cut at byte %d of a %d-byte payload (Set reported ok=%v)", c.Cut, c.Size, setOK))
+		judgeRecovery(r, c.Backend, dir, key, res, fmt.Sprintf("backend=%s,old=%v", c.Backend, c.Old), fmt.Sprintf("after a write cut at byte %d of a %d-byte payload", c.Cut, c.Size))
 		if setOK && res != "full:new" && res != "PARTIAL" {
 			r.Violation("acknowledged-write-lost", "backend="+c.Backend, fmt.Sprintf("Set reported success under a file-size limit of %d bytes but Get gives %s", c.Cut, res), nil)
 		}
@@ -352,6 +388,9 @@ func TestC15Kill(t *testing.T) {
 		r.Begin(i, c)
 		dir := ScratchDir()
 		key := "http://a.example/kill#0"
+		if i%3 == 1 {
+			key += strings.Repeat("k", 250)
+		}
 		allowed := map[string]bool{"loop": true}
 		if old {
 			if conn, err := Backend(backend, dir); err == nil {
@@ -408,6 +447,7 @@ func TestC15Kill(t *testing.T) {
 		cmd.Wait()
 		files, temps, sizes := diskState(dir)
 		res := judgeGet(r, backend, dir, key, allowed, fmt.Sprintf("backend=%s,mode=%s", backend, mode), fmt.Sprintf("after the writer was killed (%s)", mode))
+		judgeRecovery(r, backend, dir, key, res, fmt.Sprintf("backend=%s,mode=%s", backend, mode), fmt.Sprintf("after the writer was killed (%s)", mode))
 		state := "complete-file"
 		switch {
 		case files == 0:
